@@ -32,13 +32,17 @@ ENCODED = ["twisted.protocols.haproxy._wrapper:HAProxyProtocolWrapper.dataReceiv
 BOUNDS = {"quick": {"p": 2, "tlv": 3, "allpos": 0, "msplit": 0},
           "thorough": {"p": 3, "tlv": 5, "allpos": 1, "msplit": 1}}
 B = {}
-BOUNDS_TEXT = ("v1: TCP4 / TCP6 / UNKNOWN (bare and with trailing text) headers, addresses from a menu, ports of "
-               "1-2 symbolic digits, payload of <= p symbolic bytes, two deliveries at every split index; one "
-               "symbolic replacement byte at every header position.  v2: PROXY/LOCAL x {TCP4, UDP4, TCP6, UDP6, "
-               "UNIX stream/dgram, UNSPEC}, addresses from a menu, symbolic port bytes / unix path bytes, TLV "
-               "region of 0 or tlv symbolic bytes, payload <= p symbolic bytes, every split index (a menu of "
-               "split positions for the 232-byte unix header); one symbolic replacement byte at each of the 16 "
-               "fixed header positions.")
+BOUNDS_TEXT = ("v1: TCP4 / TCP6 / UNKNOWN (bare, with trailing space, with trailing text) headers with addresses "
+               "and ports from menus x payload of p symbolic bytes x EVERY split index (v1split); every port "
+               "value of 1-2 digits in either port field, 4 split positions (v1ports); UNKNOWN followed by 2 "
+               "symbolic text fields (v1junk); one replaced byte (all 256 values) at header positions of 4 base "
+               "headers - quick: 1-2 positions per field incl. CR and LF, thorough: every position, delivered "
+               "at once (thorough also: header and payload separately) (v1bad); 100..112 bytes without CRLF "
+               "(v1limit).  v2: PROXY x {TCP4, UDP4, TCP6, UDP6} and LOCAL, addresses from a menu, symbolic port "
+               "bytes, TLV region of 0 or tlv symbolic bytes, payload of p symbolic bytes, every split index "
+               "(v2inet); UNIX stream/dgram with symbolic path bytes, 12 split positions (v2unix); UNSPEC, "
+               "every split index (v2unspec); one replaced byte (all 256 values) at each of the 16 fixed "
+               "header positions (v2bad).  p = 2 quick / 3 thorough, tlv = 3 / 5.")
 OUTSIDE = ["addresses outside the menus (the address text is only copied / formatted per byte; ports, which "
            "are parsed arithmetically, are symbolic)",
            "three or more deliveries; payloads longer than p bytes (passed through unchanged after the header)",
@@ -53,9 +57,14 @@ OUTSIDE = ["addresses outside the menus (the address text is only copied / forma
            "non-space byte likewise",
            "v1 lines longer than 107 bytes that do contain CRLF"]
 ASSUMPTIONS = ["LBytes/struct/ord/binascii/bit-operation shims reproduce the real operations (differential "
-               "selftest on every run) and the lifted classes agree with the real ones on the concrete vectors "
-               "below (headers from twisted/protocols/haproxy/test/)",
-               "ipaddress (pure Python stdlib) is executed symbolically as is",
+               "selftest on every run, run on the LBytes class WITH this module's scan based "
+               "find/split/partition/startswith/rstrip/decode replacements installed) and the lifted classes "
+               "agree with the real ones on the concrete vectors below (headers from "
+               "twisted/protocols/haproxy/test/)",
+               "ipaddress (stdlib) is called as is on concrete text; on a text containing a symbolic byte it is "
+               "replaced by the validators _is_ipv4/_is_ipv6 of this file, which selftest() compares with "
+               "ipaddress on every single-byte replacement (256 values) of every base address",
+               "UNIXAddress's attrs converter (isinstance(name, bytes)) is bypassed for LBytes names",
                "a real transport delivers nothing more after loseConnection()/abortConnection()"]
 EXPLANATION = "lifted real PROXY wrapper + parsers; shape/menu/split/mutation position case-split by the solver, field bytes symbolic"
 
